@@ -93,6 +93,8 @@ def flag_tables(chk, prog, props_rule="FLAG-TABLE"):
                         return v if v in (None, "?") else not v
                     if is_t(c, "is") and c[1] == F and c[2] in (C(True), C(False)):
                         return kind != "traced" and (kind == "T") == c[2][1]
+                    if (is_call(c, "concrete_true") or is_call(c, "concrete_false")) and c[2] == (F,):  # FlagOp's own predicates (`f is True` / `f is False`, judged above)
+                        return kind != "traced" and (kind == "T") == is_call(c, "concrete_true")
                     if is_t(c, "cmp") and c[1] == "==" and c[2] == F and c[3] in (C(True), C(False)):
                         return None if kind == "traced" else (kind == "T") == c[3][1]
                     if is_t(c, "isinst") and c[1] == F and c[2] == "bool":
